@@ -623,6 +623,166 @@ def specialise_callbacks(trees: Dict[str, ast.Module]) -> List[str]:
     return done
 
 
+def specialise_record_params(trees: Dict[str, ast.Module], known_classes: Set[str]) -> List[str]:
+    """A record class introduced after the rules were written (fields + small methods), an instance of which is built once in a
+    function F (`v = R(a, b)`) and handed to module-level helpers through a parameter annotated `R`, is read without the record:
+    the helper takes one (keyword-only) parameter per field, `p.field` is that parameter, `p.method(x)` is the method's statement in place;
+    the call sites hand over `v.field` for each field (the scalar replacement of F's local then finishes the job).  Sets and dicts held by
+    the record keep being updated in place - which is what the original does through the shared record."""
+    done: List[str] = []
+    recs: Dict[str, ast.ClassDef] = {}
+    for t in trees.values():
+        for c in t.body:
+            if isinstance(c, ast.ClassDef) and c.name not in known_classes:
+                flds = [x for x in c.body if isinstance(x, ast.AnnAssign) and isinstance(x.target, ast.Name)]
+                meths = [x for x in c.body if isinstance(x, ast.FunctionDef)]
+                if flds and all(isinstance(x, (ast.AnnAssign, ast.FunctionDef, ast.Expr)) for x in c.body) \
+                        and all(not m.decorator_list and m.args.args and not m.args.vararg and not m.args.kwarg and len(_body_wo_doc(m)) == 1
+                                and not isinstance(_body_wo_doc(m)[0], (ast.Return, ast.If, ast.For, ast.While, ast.Try, ast.With)) for m in meths):
+                    recs[c.name] = c
+    if not recs:
+        return done
+
+    def fields_of(c: ast.ClassDef) -> List[str]:
+        return [x.target.id for x in c.body if isinstance(x, ast.AnnAssign) and isinstance(x.target, ast.Name)]
+
+    def field_ann(c: ast.ClassDef, f: str):
+        return next(copy.deepcopy(x.annotation) for x in c.body if isinstance(x, ast.AnnAssign) and isinstance(x.target, ast.Name) and x.target.id == f)
+
+    def proc_methods(c: ast.ClassDef) -> Dict[str, ast.FunctionDef]:
+        return {m.name: m for m in c.body if isinstance(m, ast.FunctionDef)}
+
+    def expand_method_calls(fn, var: str, c: ast.ClassDef) -> bool:
+        """`var.m(args)` as a statement -> the method's single statement with self := var (attribute form) and parameters := args."""
+        ms = proc_methods(c)
+        ok = True
+
+        def go(stmts: List[ast.stmt]) -> List[ast.stmt]:
+            nonlocal ok
+            out: List[ast.stmt] = []
+            for st in stmts:
+                call = st.value if isinstance(st, ast.Expr) and isinstance(st.value, ast.Call) else None
+                if call is not None and isinstance(call.func, ast.Attribute) and isinstance(call.func.value, ast.Name) and call.func.value.id == var \
+                        and call.func.attr in ms:
+                    m = ms[call.func.attr]
+                    mp = [x.arg for x in m.args.args[1:]]
+                    if call.keywords or len(call.args) != len(mp) or not all(isinstance(x, (ast.Name, ast.Attribute, ast.Constant)) for x in call.args):
+                        ok = False
+                        out.append(st)
+                        continue
+                    bind = dict(zip(mp, call.args))
+                    selfname = m.args.args[0].arg
+                    body = copy.deepcopy(_body_wo_doc(m)[0])
+
+                    class _M(ast.NodeTransformer):
+                        def visit_Name(self, n):
+                            if n.id == selfname:
+                                return ast.copy_location(ast.Name(id=var, ctx=n.ctx), n)
+                            if n.id in bind and isinstance(n.ctx, ast.Load):
+                                return copy.deepcopy(bind[n.id])
+                            return n
+                    nb = _M().visit(body)
+                    ast.copy_location(nb, st)
+                    out.append(nb)
+                    continue
+                for fld in ("body", "orelse", "finalbody"):
+                    v_ = getattr(st, fld, None)
+                    if isinstance(v_, list) and v_ and isinstance(v_[0], ast.stmt) and not isinstance(st, FuncDef + (ast.ClassDef,)):
+                        setattr(st, fld, go(v_))
+                if isinstance(st, ast.Try):
+                    for hd in st.handlers:
+                        hd.body = go(hd.body)
+                out.append(st)
+            return out
+        fn.body = go(fn.body)
+        return ok
+
+    mod_funcs: Dict[str, ast.AST] = {}
+    for t in trees.values():
+        for st in t.body:
+            if isinstance(st, FuncDef):
+                mod_funcs.setdefault(st.name, st)
+    for hname, H in list(mod_funcs.items()):
+        a = H.args
+        for prm in list(a.posonlyargs + a.args + a.kwonlyargs):
+            an = prm.annotation
+            rname = an.id if isinstance(an, ast.Name) else (an.value if isinstance(an, ast.Constant) and isinstance(an.value, str) else None)
+            if rname not in recs:
+                continue
+            c = recs[rname]
+            p = prm.arg
+            flds = fields_of(c)
+            if not expand_method_calls(H, p, c):
+                continue
+            parents: Dict[int, ast.AST] = {}
+            for n in ast.walk(H):
+                for ch in ast.iter_child_nodes(n):
+                    parents[id(ch)] = n
+            uses = [n for n in ast.walk(H) if isinstance(n, ast.Name) and n.id == p]
+            if not all(isinstance(parents.get(id(u)), ast.Attribute) and parents[id(u)].attr in flds for u in uses):
+                continue
+            h_names = {x.id for x in ast.walk(H) if isinstance(x, ast.Name)} | {x.arg for x in a.posonlyargs + a.args + a.kwonlyargs}
+            if any(f"{p}__{f}" in h_names for f in flds):
+                continue
+            # call sites: the argument is a plain local name
+            pos = [x.arg for x in a.posonlyargs + a.args]
+            sites = []
+            good = True
+            for t in trees.values():
+                for F in [n for n in ast.walk(t) if isinstance(n, FuncDef)]:
+                    for cl in _own_nodes(F):
+                        if isinstance(cl, ast.Call) and ((isinstance(cl.func, ast.Name) and cl.func.id == hname)
+                                                         or (isinstance(cl.func, ast.Attribute) and cl.func.attr == hname and isinstance(cl.func.value, ast.Name))):
+                            arg = next((k.value for k in cl.keywords if k.arg == p), None)
+                            if arg is None and p in pos and pos.index(p) < len(cl.args) and not any(isinstance(x, ast.Starred) for x in cl.args):
+                                arg = cl.args[pos.index(p)]
+                            if not isinstance(arg, ast.Name):
+                                good = False
+                            sites.append((F, cl, arg))
+            if not good or not sites:
+                continue
+
+            class _P(ast.NodeTransformer):
+                def visit_Attribute(self, node: ast.Attribute):
+                    self.generic_visit(node)
+                    if isinstance(node.value, ast.Name) and node.value.id == p and node.attr in flds:
+                        return ast.copy_location(ast.Name(id=f"{p}__{node.attr}", ctx=node.ctx), node)
+                    return node
+            _P().visit(H)
+            for lst in (a.posonlyargs, a.args):
+                if any(x.arg == p for x in lst):
+                    i_ = [x.arg for x in lst].index(p)
+                    n_after = len(lst) - i_ - 1
+                    if lst is a.args and len(a.defaults) > n_after:
+                        good = False  # the record parameter has a default: not handled
+                    lst[:] = [x for x in lst if x.arg != p]
+            if p in [x.arg for x in a.kwonlyargs]:
+                i_ = [x.arg for x in a.kwonlyargs].index(p)
+                del a.kwonlyargs[i_]
+                del a.kw_defaults[i_]
+            for f in flds:
+                a.kwonlyargs.append(ast.arg(arg=f"{p}__{f}", annotation=field_ann(c, f)))
+                a.kw_defaults.append(None)
+            for F, cl, arg in sites:
+                if p in pos and pos.index(p) < len(cl.args):
+                    del cl.args[pos.index(p)]
+                cl.keywords = [k for k in cl.keywords if k.arg != p] + [
+                    ast.keyword(arg=f"{p}__{f}", value=ast.Attribute(value=ast.Name(id=arg.id, ctx=ast.Load()), attr=f, ctx=ast.Load())) for f in flds]
+                expand_method_calls(F, arg.id, c)
+            for t in trees.values():
+                ast.fix_missing_locations(t)
+            done.append(f"{hname}({p}: {rname})")
+    # procedure methods called on a local record of a function that hands it to nobody: expanded too, so that the scalar replacement applies
+    for t in trees.values():
+        for F in [n for n in ast.walk(t) if isinstance(n, FuncDef)]:
+            for st in _own_nodes(F):
+                if isinstance(st, ast.Assign) and len(st.targets) == 1 and isinstance(st.targets[0], ast.Name) and isinstance(st.value, ast.Call) \
+                        and isinstance(st.value.func, ast.Name) and st.value.func.id in recs:
+                    expand_method_calls(F, st.targets[0].id, recs[st.value.func.id])
+        ast.fix_missing_locations(t)
+    return done
+
+
 def inline_new_helpers(trees: Dict[str, ast.Module], known: Set[str]) -> List[str]:
     expanded: List[str] = []
     for _round in range(4):
@@ -1051,6 +1211,8 @@ def scalarize_new_aggregates(trees: Dict[str, ast.Module], known_classes: Set[st
                             and len(_body_wo_doc(st)) == 1 and isinstance(_body_wo_doc(st)[0], ast.Return) and _body_wo_doc(st)[0].value is not None:
                         # a method that is one expression over the fields and its parameters: expanded at its calls
                         meths[st.name] = st
+                    elif isinstance(st, ast.FunctionDef) and not st.decorator_list:
+                        pass  # another method: a use `v.m(..)` of it keeps the record (checked per use); its presence alone does not
                     else:
                         ok = False
                 if ok and fields:
@@ -1211,6 +1373,12 @@ def scalarize_new_aggregates(trees: Dict[str, ast.Module], known_classes: Set[st
                             break
                         if len(sts) == 1 and isinstance(e, ast.Constant):
                             const_fields[fld] = e  # read in place: the use is the constant itself
+                            continue
+                        if len(sts) == 1 and isinstance(e, ast.Name) and e.id in {x.arg for x in fn.args.posonlyargs + fn.args.args + fn.args.kwonlyargs} \
+                                and not any(isinstance(x, ast.Name) and x.id == e.id and isinstance(x.ctx, (ast.Store, ast.Del)) for x in ast.walk(fn)) \
+                                and not any(isinstance(x, ast.Attribute) and isinstance(x.value, ast.Name) and x.value.id == var and x.attr == fld
+                                            and isinstance(x.ctx, (ast.Store, ast.Del)) for x in ast.walk(fn)):
+                            const_fields[fld] = e  # a parameter of the function that is never re-bound: the field IS that parameter
                             continue
                         inits.append(ast.Assign(targets=[ast.Name(id=f"{var}__{fld}", ctx=ast.Store())], value=e))
                     inits_of[id(s_)] = inits
